@@ -8,6 +8,10 @@
 //!            `check_compact`, spends after compaction, spends after the bitmap snapshot.
 //! `ident`  : identifiers with an empty / out-of-range / wrapped range (`catch`): regression probe
 //!            for the repaired `Segment::root` (must refuse with an error, never panic).
+//! `leafless`: segments that carry no leaves (one or more hashes, or nothing), a genuine or an
+//!            arbitrary proof, decoded from a hand-written wire form at protocol versions 1..=3 (also as
+//!            kernel segments), without bitmap and with three bitmaps: `root`, `first_unpruned_parent`,
+//!            `validate`, `validate_with` under `catch`; leaves without the hashes the bitmap requires.
 //! `bitmap` : `BitmapSegment` <-> `Segment<BitmapChunk>` and validation against the accumulator.
 //! `e2e`    : source chain -> segmenter -> desegmenter of a fresh chain (random order, duplicates,
 //!            tampered segments) -> `validate_complete_state` -> compare with the source.
@@ -960,6 +964,433 @@ fn ident_mode(out: &mut Out, rng: &mut Rng, _thorough: bool) {
 	st.dump(out, "ident");
 }
 
+// ---------------------------------------------------------------------------------------------
+// leafless: segments that carry NO leaves (but hashes), with and without a bitmap, via the wire
+// ---------------------------------------------------------------------------------------------
+
+/// the wire form of a segment, written by hand (positions 1-based, strictly ascending on the wire)
+fn wire_bytes(p: &Parts) -> Vec<u8> {
+	let mut b = vec![p.height];
+	b.extend_from_slice(&p.idx.to_be_bytes());
+	b.extend_from_slice(&(p.hashes.len() as u64).to_be_bytes());
+	for x in &p.hash_pos {
+		b.extend_from_slice(&(1 + x).to_be_bytes());
+	}
+	for h in &p.hashes {
+		b.extend_from_slice(h.as_bytes());
+	}
+	b.extend_from_slice(&(p.leaf_data.len() as u64).to_be_bytes());
+	for x in &p.leaf_pos {
+		b.extend_from_slice(&(1 + x).to_be_bytes());
+	}
+	for d in &p.leaf_data {
+		b.extend_from_slice(d);
+	}
+	b.extend_from_slice(&(p.proof.len() as u64).to_be_bytes());
+	for h in &p.proof {
+		b.extend_from_slice(h.as_bytes());
+	}
+	b
+}
+
+fn root_str(r: &Result<Result<Option<Hash>, SegmentError>, String>) -> String {
+	match r {
+		Ok(Ok(Some(h))) => hex(h.as_bytes()),
+		Ok(Ok(None)) => "none".to_string(),
+		Ok(Err(e)) => err_str(e),
+		Err(_) => "panic".to_string(),
+	}
+}
+
+fn fup_str(f: &Result<Result<(Hash, u64), SegmentError>, String>) -> String {
+	match f {
+		Ok(Ok((h, pos))) => format!("{} {}", hex(h.as_bytes()), pos),
+		Ok(Err(e)) => err_str(e),
+		Err(_) => "panic".to_string(),
+	}
+}
+
+/// (root, first_unpruned_parent, validate, validate_with) of one decoded segment, each under catch
+fn four_calls<T: PMMRIndexHashable>(seg: &Segment<T>, size: u64, bm: Option<&Bitmap>, plain: &Target, with: &Target) -> [String; 4] {
+	[
+		root_str(&catch(AssertUnwindSafe(|| seg.root(size, bm)))),
+		fup_str(&catch(AssertUnwindSafe(|| seg.first_unpruned_parent(size, bm)))),
+		run_validate(seg, plain, bm),
+		run_validate(seg, with, bm),
+	]
+}
+
+/// what the harness expects of `validate` (independent of the model)
+#[derive(Clone, Copy, PartialEq, Debug)]
+enum Want {
+	/// must be accepted
+	Ok,
+	/// must be refused with an error
+	Err,
+	/// only: no panic
+	NoPanic,
+}
+
+fn leafless_mode(out: &mut Out, rng: &mut Rng, thorough: bool) {
+	let maxn: u64 = if thorough { 64 } else { 40 };
+	let mut st = Stats::default();
+	let mut ba = VecBackend::<Elem>::new();
+	let mut size = 0u64;
+	let mut wire_min = usize::MAX;
+	for n in 1..=maxn {
+		let e = Elem(rng.bytes(8));
+		let mut pm = PMMR::at(&mut ba, size);
+		pm.push(&e).unwrap();
+		size = pm.size;
+		let root = pm.root().unwrap();
+		let mmr = ReadonlyPMMR::<Elem, _>::at(&ba, size);
+		let n_leaves = pmmr::n_leaves(size);
+		let emit_state = n <= 12 || rng.chance(1, if thorough { 3 } else { 4 });
+		if emit_state {
+			out.raw("seg new");
+		}
+		st.inc("mmr-sizes");
+		for height in 0..=4u8 {
+			let cap = 1u64 << height;
+			let nseg = (n_leaves + cap - 1) / cap;
+			for idx in 0..nseg {
+				let id = SegmentIdentifier { height, idx };
+				let full = (idx + 1) * cap <= n_leaves;
+				let (first, last) = id.segment_pos_range(size);
+				st.inc(if full { "ident:full" } else { "ident:last-not-full" });
+				st.inc(&format!("height:{}", height));
+				// the honest segment (all leaves, no hashes) gives the genuine proof
+				let honest = match Segment::<Elem>::from_pmmr(id, &mmr, false) {
+					Ok(s) => parts_of(&s),
+					Err(e) => {
+						out.raw(&format!("#ORACLE-FAIL C16 leafless: from_pmmr failed for an existing segment size={} h={} idx={}: {:?}", size, height, idx, e));
+						continue;
+					}
+				};
+				let node = |p: u64| mmr.get_from_file(p).unwrap();
+				let rand_hash = |rng: &mut Rng| Hash::from_vec(&rng.bytes(32));
+				let rand_proof = |rng: &mut Rng| -> Vec<Hash> { (0..rng.below(7)).map(|_| Hash::from_vec(&rng.bytes(32))).collect() };
+				let leaf_positions: Vec<u64> = (first..=last).filter(|p| pmmr::is_leaf(*p)).collect();
+				let lo_leaf = pmmr::n_leaves(first + 1) - 1;
+				// bitmaps: everything in the range spent (others random) / everything spent / one leaf of the range marked
+				let mut bm_range_spent = Bitmap::new();
+				for i in 0..n_leaves {
+					let inside = i >= lo_leaf && i < lo_leaf + leaf_positions.len() as u64;
+					if !inside && rng.chance(1, 2) {
+						bm_range_spent.add(i as u32);
+					}
+				}
+				let bm_empty = Bitmap::new();
+				let mut bm_one = bm_range_spent.clone();
+				let marked = lo_leaf + rng.below(leaf_positions.len() as u64);
+				bm_one.add(marked as u32);
+
+				// ---- the variants: (name, parts, expectation per bitmap kind [none, range-spent, empty, one-marked])
+				let mut variants: Vec<(&'static str, Parts, [Want; 4])> = vec![];
+				let base = Parts {
+					height,
+					idx,
+					hash_pos: vec![],
+					hashes: vec![],
+					leaf_pos: vec![],
+					leaf_data: vec![],
+					proof: honest.proof.clone(),
+				};
+				// a completely pruned segment is accepted iff no leaf of its range is required: the bitmap
+				// marks it or its sibling (which, for a height-0 segment, lies outside the range), or it is
+				// the last position of the MMR; without a bitmap every leaf is required
+				let leaf_req = |bm: Option<&Bitmap>, p: u64| -> bool {
+					match bm {
+						None => true,
+						Some(b) => {
+							let i1 = pmmr::n_leaves(p + 1) - 1;
+							let i2 = if pmmr::is_left_sibling(p) { i1 + 1 } else { i1.wrapping_sub(1) };
+							b.contains(i1 as u32) || b.contains(i2 as u32) || p == size - 1
+						}
+					}
+				};
+				let any_req: Vec<bool> = [None, Some(&bm_range_spent), Some(&bm_empty), Some(&bm_one)]
+					.iter()
+					.map(|bm| leaf_positions.iter().any(|p| leaf_req(*bm, *p)))
+					.collect();
+				let by_req = |if_pruned: [Want; 4]| -> [Want; 4] {
+					let mut w = if_pruned;
+					for i in 0..4 {
+						if any_req[i] {
+							w[i] = Want::Err;
+						}
+					}
+					w
+				};
+				if full {
+					// (1) the subtree root at the segment's last position, genuine proof
+					let mut p = base.clone();
+					p.hash_pos = vec![last];
+					p.hashes = vec![node(last)];
+					variants.push(("root-hash+genuine-proof", p.clone(), by_req([Want::Ok; 4])));
+					// (1b) the same with one bit of the hash flipped
+					let mut q = p.clone();
+					q.hashes[0] = flip(&q.hashes[0], rng);
+					variants.push(("root-hash-flipped+genuine-proof", q, [Want::Err, Want::Err, Want::Err, Want::Err]));
+					// (1c) arbitrary proof
+					let mut q = p.clone();
+					q.proof = rand_proof(rng);
+					// (hashes after the consumed ones are ignored: nothing is consumed when the genuine proof is empty)
+					let w = if honest.proof.is_empty() { Want::NoPanic } else { Want::Err };
+					variants.push(("root-hash+arbitrary-proof", q, by_req([w; 4])));
+					// (2) a higher unpruned parent on the family branch, with the proof from there on
+					let fb = pmmr::family_branch(last, size);
+					if !fb.is_empty() {
+						let j = rng.below(fb.len() as u64) as usize;
+						let (p0, _) = fb[j];
+						let mut q = base.clone();
+						q.hash_pos = vec![p0];
+						q.hashes = vec![node(p0)];
+						q.proof = honest.proof[(j + 1).min(honest.proof.len())..].to_vec();
+						// accepted only when the whole subtree under p0 is spent: true for the empty bitmap
+						variants.push(("parent-hash+proof-suffix", q, by_req([Want::NoPanic, Want::NoPanic, Want::Ok, Want::NoPanic])));
+					}
+					// (3) the hashes of both children of the subtree root (redundant: nothing reads them)
+					if height > 0 {
+						let l = last - (1 << height);
+						let r = last - 1;
+						let mut q = base.clone();
+						q.hash_pos = vec![l, r];
+						q.hashes = vec![node(l), node(r)];
+						variants.push(("children-hashes+genuine-proof", q, [Want::Err, Want::Err, Want::Err, Want::Err]));
+						// every node hash of the range
+						let mut q = base.clone();
+						q.hash_pos = (first..=last).collect();
+						q.hashes = q.hash_pos.iter().map(|p| node(*p)).collect();
+						variants.push(("all-node-hashes+genuine-proof", q, by_req([Want::Ok; 4])));
+					}
+				} else {
+					// the last, not full segment: its peaks as hashes
+					let pk: Vec<u64> = pmmr::peaks(size).into_iter().filter(|p| *p >= first && *p <= last).collect();
+					let mut q = base.clone();
+					q.hash_pos = pk.clone();
+					q.hashes = pk.iter().map(|p| node(*p)).collect();
+					variants.push(("last-segment-peak-hashes+genuine-proof", q.clone(), [Want::Err, Want::NoPanic, Want::NoPanic, Want::Err]));
+					let mut r = q.clone();
+					r.proof = rand_proof(rng);
+					variants.push(("last-segment-peak-hashes+arbitrary-proof", r, [Want::Err, Want::NoPanic, Want::NoPanic, Want::Err]));
+				}
+				// (4) arbitrary hashes at arbitrary (ascending) positions, inside and outside the range
+				{
+					let k = rng.range(1, 4) as usize;
+					let mut pos: BTreeSet<u64> = BTreeSet::new();
+					for _ in 0..k {
+						pos.insert(match rng.below(4) {
+							0 => last,
+							1 => first + rng.below(last - first + 1),
+							2 => rng.below(size + 3),
+							_ => last + 1 + rng.below(8),
+						});
+					}
+					let mut q = base.clone();
+					q.hash_pos = pos.into_iter().collect();
+					q.hashes = q.hash_pos.iter().map(|_| rand_hash(rng)).collect();
+					if rng.chance(1, 2) {
+						q.proof = rand_proof(rng);
+					}
+					variants.push(("arbitrary-hashes", q, [Want::Err, Want::Err, Want::Err, Want::Err]));
+				}
+				// (5) no leaves and no hashes
+				{
+					let q = base.clone();
+					variants.push(("empty+genuine-proof", q, [Want::Err, Want::Err, Want::Err, Want::Err]));
+					let mut q = base.clone();
+					q.proof = rand_proof(rng);
+					variants.push(("empty+arbitrary-proof", q, [Want::Err, Want::Err, Want::Err, Want::Err]));
+				}
+				// (6) leaves without the hashes the bitmap makes necessary: keep exactly the leaves the
+				// one-marked bitmap requires; with / without the hashes of the pruned subtrees
+				{
+					let req = |p: u64| {
+						let i1 = pmmr::n_leaves(p + 1) - 1;
+						let i2 = if pmmr::is_left_sibling(p) { i1 + 1 } else { i1.wrapping_sub(1) };
+						bm_one.contains(i1 as u32) || bm_one.contains(i2 as u32) || p == size - 1
+					};
+					let mut q = base.clone();
+					for (lp, ld) in honest.leaf_pos.iter().zip(&honest.leaf_data) {
+						if req(*lp) {
+							q.leaf_pos.push(*lp);
+							q.leaf_data.push(ld.clone());
+						}
+					}
+					let dropped = honest.leaf_pos.len() - q.leaf_pos.len();
+					// maximal pruned subtrees inside the range: nodes without a required leaf below whose parent has one
+					let has_req = |p: u64| (pmmr::bintree_leftmost(p)..=p).any(|x| pmmr::is_leaf(x) && req(x));
+					let mut with_h = q.clone();
+					for p in first..=last {
+						if has_req(p) {
+							continue;
+						}
+						let is_top = match pmmr::family(p) {
+							(parent, _) => parent > last || has_req(parent),
+						};
+						if is_top {
+							with_h.hash_pos.push(p);
+							with_h.hashes.push(node(p));
+						}
+					}
+					let hashes_needed = full && !with_h.hashes.is_empty() && q.leaf_pos.len() > 0;
+					variants.push((
+						"required-leaves-only+no-hashes",
+						q,
+						[Want::NoPanic, Want::NoPanic, Want::NoPanic, if dropped == 0 { Want::Ok } else if hashes_needed { Want::Err } else { Want::NoPanic }],
+					));
+					variants.push((
+						"required-leaves-only+pruned-subtree-hashes",
+						with_h,
+						[Want::NoPanic, Want::NoPanic, Want::NoPanic, if full { Want::Ok } else { Want::NoPanic }],
+					));
+				}
+
+				let other = Hash::from_vec(&rng.bytes(32));
+				let left = rng.chance(1, 2);
+				let hlp = if rng.chance(1, 2) { size } else { rng.below(1000) };
+				let merged = if left { (other, root).hash_with_index(hlp) } else { (root, other).hash_with_index(hlp) };
+				let plain = Target { size, root, with: None };
+				let with = Target { size, root: merged, with: Some((hlp, other, left)) };
+				let bms: [(&'static str, Option<&Bitmap>); 4] = [
+					("none", None),
+					("range-spent", Some(&bm_range_spent)),
+					("all-spent", Some(&bm_empty)),
+					("one-leaf-marked", Some(&bm_one)),
+				];
+				for (vname, p, wants) in &variants {
+					st.inc(&format!("variant:{}", vname));
+					st.inc(&format!("n_hashes:{}", p.hashes.len().min(4)));
+					let bytes = wire_bytes(p);
+					wire_min = wire_min.min(bytes.len());
+					// decode at protocol versions 1..=3, as a segment of test elements and (no leaves:
+					// the leaf type is never read) as a kernel segment
+					let mut per_version: Vec<Vec<[String; 4]>> = vec![];
+					let mut decode_fail = false;
+					for pv in 1..=3u32 {
+						let de = catch(AssertUnwindSafe(|| {
+							ser::deserialize::<Segment<Elem>, _>(&mut &bytes[..], ProtocolVersion(pv), ser::DeserializationMode::default())
+						}));
+						let seg = match de {
+							Err(_) => {
+								out.raw(&format!("#ORACLE-FAIL C16 leafless: Segment::read panicked at protocol version {} on {}", pv, hex(&bytes)));
+								decode_fail = true;
+								break;
+							}
+							Ok(Err(_)) => {
+								st.inc("wire:refused");
+								decode_fail = true;
+								break;
+							}
+							Ok(Ok(s)) => s,
+						};
+						if parts_of(&seg) != *p {
+							out.raw(&format!("#ORACLE-FAIL C16 leafless: wire form decodes to other parts (version {}): {} vs {}", pv, hex(&bytes), parts_str(p)));
+						}
+						if pv == 1 {
+							// re-encoding gives the crafted bytes back
+							if ser::ser_vec(&seg, ProtocolVersion(pv)).unwrap() != bytes {
+								out.raw(&format!("#ORACLE-FAIL C16 leafless: re-encoding differs from the crafted wire form {}", hex(&bytes)));
+							}
+						}
+						let kseg: Option<Segment<TxKernel>> = if p.leaf_data.is_empty() {
+							ser::deserialize::<Segment<TxKernel>, _>(&mut &bytes[..], ProtocolVersion(pv), ser::DeserializationMode::default()).ok()
+						} else {
+							None
+						};
+						if p.leaf_data.is_empty() && kseg.is_none() {
+							out.raw(&format!("#ORACLE-FAIL C16 leafless: bytes decode as Segment<Elem> but not as a kernel segment (version {}): {}", pv, hex(&bytes)));
+						}
+						let mut rows = vec![];
+						for (_, bm) in bms.iter() {
+							let r = four_calls(&seg, size, *bm, &plain, &with);
+							if let Some(k) = &kseg {
+								let rk = four_calls(k, size, *bm, &plain, &with);
+								st.inc("calls:kernel-segment");
+								if rk != r {
+									out.raw(&format!(
+										"#ORACLE-FAIL C16 leafless: kernel segment and element segment with the same parts answer differently ({:?} vs {:?}): size={} bitmap={} {}",
+										rk, r, size, bm_str(*bm), parts_str(p)
+									));
+								}
+							}
+							rows.push(r);
+						}
+						per_version.push(rows);
+					}
+					if decode_fail {
+						continue;
+					}
+					st.inc("wire:decoded-v1..3");
+					if per_version[1] != per_version[0] || per_version[2] != per_version[0] {
+						out.raw(&format!("#ORACLE-FAIL C16 leafless: verdicts differ between protocol versions: size={} {}", size, parts_str(p)));
+					}
+					for (bi, (bname, bm)) in bms.iter().enumerate() {
+						let r = &per_version[0][bi];
+						let emit = emit_state && (n <= 8 || rng.chance(1, 3));
+						if emit {
+							out.line(&format!("seg root {} {} {}", size, bm_str(*bm), parts_str(p)), &r[0]);
+							out.line(&format!("seg fup {} {} {}", size, bm_str(*bm), parts_str(p)), &r[1]);
+							out.line(&validate_lhs(p, &plain, *bm), &r[2]);
+							out.line(&validate_lhs(p, &with, *bm), &r[3]);
+						}
+						st.add("calls", 12);
+						let cls = |s: &str| -> String {
+							if s == "ok" || s == "panic" || s == "none" {
+								s.to_string()
+							} else if s.starts_with("err:") {
+								s.split(':').take(2).collect::<Vec<_>>().join(":")
+							} else {
+								"hash".to_string()
+							}
+						};
+						st.inc(&format!("verdict[{}|{}]:{}", if p.leaf_data.is_empty() { "leafless" } else { "leaves" }, bname, cls(&r[2])));
+						st.inc(&format!("root[{}]:{}", bname, cls(&r[0])));
+						let lhs = validate_lhs(p, &plain, *bm);
+						if r.iter().any(|x| x == "panic") {
+							out.raw(&format!(
+								"#ORACLE-FAIL C16 leafless: a stateless segment check panicked (root={} fup={} validate={} validate_with={}) variant={} bitmap={} wire={} :: {}",
+								r[0], r[1], r[2], r[3], vname, bname, hex(&bytes), lhs
+							));
+						}
+						// validate and validate_with must agree
+						if (r[2] == "ok") != (r[3] == "ok") {
+							out.raw(&format!("#ORACLE-FAIL C16 leafless: validate ({}) and validate_with ({}) disagree: variant={} bitmap={} :: {}", r[2], r[3], vname, bname, lhs));
+						}
+						match wants[bi] {
+							Want::Ok => {
+								if r[2] != "ok" {
+									out.raw(&format!("#ORACLE-FAIL C16 leafless: genuine pruned segment not accepted ({}): variant={} bitmap={} :: {}", r[2], vname, bname, lhs));
+								}
+							}
+							Want::Err => {
+								if r[2] == "ok" {
+									out.raw(&format!("#ORACLE-FAIL C16 leafless: segment accepted that must be refused: variant={} bitmap={} :: {}", vname, bname, lhs));
+								}
+							}
+							Want::NoPanic => {}
+						}
+						// without a bitmap (kernel MMR) a segment without leaves is always MissingLeaf(first)
+						if bm.is_none() && p.leaf_data.is_empty() {
+							let exp = format!("err:missingleaf:{}", first);
+							if r[0] != exp || r[1] != exp || r[2] != exp || r[3] != exp {
+								out.raw(&format!(
+									"#ORACLE-FAIL C16 leafless: without a bitmap a segment without leaves must answer MissingLeaf({}) (root={} fup={} validate={} validate_with={}): variant={} :: {}",
+									first, r[0], r[1], r[2], r[3], vname, lhs
+								));
+							}
+						}
+					}
+				}
+			}
+		}
+	}
+	st.add("max_leaves", maxn);
+	st.add("smallest-wire-form-bytes", wire_min as u64);
+	st.dump(out, "leafless");
+}
+
 /// (ii) `BitmapSegment` <-> `Segment<BitmapChunk>` and validation against the accumulator root
 fn bitmap_mode(out: &mut Out, rng: &mut Rng, thorough: bool) {
 	let mut st = Stats::default();
@@ -1665,6 +2096,9 @@ fn main() {
 	}
 	if mode == "ident" || mode == "all" {
 		ident_mode(&mut out, &mut rng, thorough);
+	}
+	if mode == "leafless" || mode == "all" {
+		leafless_mode(&mut out, &mut rng, thorough);
 	}
 	out.flush();
 }
